@@ -7,6 +7,7 @@ import Bpp.CodecThm
 import Bpp.CtorsThm
 import Model.Transcript
 import Bpp.GensThm
+import Bpp.BindingThm
 /-! # Property theorems
 
 Only the property statements live here, one block per C-id, each about the **executable** model functions of
@@ -473,5 +474,37 @@ theorem C12_verifier_prefix (I : RangeInst F M) (G' H' : ℕ → M) (π : ProofM
     (hG : ∀ i < I.n * I.m, I.G i = G' i) (hH : ∀ i < I.n * I.m, I.H i = H' i) :
     Model.codeContribution { I with G := G', H := H' } π y z es e w = Model.codeContribution I π y z es e w :=
   GensThm.codeContribution_prefix I G' H' π y z es e w hG hH
+
+/-! ## C05 Statement binding
+
+Every component of a (statement, proof, transcript) triple is in one of three classes:
+* absorbed before a later challenge (C04): context, H, every G_k, bit length, extension degree, aggregation factor,
+  every commitment (hence their order) and promise, A, every L_j, R_j, A1, B — a change re-randomises that challenge;
+* in the final equation with a *unique* accepting value at fixed challenges: r1, s1, every d1_k, and again A, A1, B
+  (theorems below; for the promises `C07_bind_single/poly`);
+* in a shape check: number of rounds and the extension tag (`C03_accept_iff`: `shapeOk`, `d1 = t`; `C15_accept_iff`). -/
+
+theorem C05_A1_unique (I : RangeInst F M) (π : ProofM F M) (A1' : M) (y z : F) (es : List F) (e : F) (he : e ≠ 0)
+    (h : Model.specResidual I π y z es e = 0) (h' : Model.specResidual I { π with A1 := A1' } y z es e = 0) : π.A1 = A1' := by
+  rw [specResidual_bridge] at h h'; exact point_A1_unique I π A1' y z es e he h h'
+
+theorem C05_B_unique (I : RangeInst F M) (π : ProofM F M) (B' : M) (y z : F) (es : List F) (e : F)
+    (h : Model.specResidual I π y z es e = 0) (h' : Model.specResidual I { π with B := B' } y z es e = 0) : π.B = B' := by
+  rw [specResidual_bridge] at h h'; exact point_B_unique I π B' y z es e h h'
+
+theorem C05_A_unique (I : RangeInst F M) (π : ProofM F M) (A' : M) (y z : F) (es : List F) (e : F) (he : e ≠ 0)
+    (h : Model.specResidual I π y z es e = 0) (h' : Model.specResidual I { π with A := A' } y z es e = 0) : π.A = A' := by
+  rw [specResidual_bridge] at h h'; exact point_A_unique I π A' y z es e he h h'
+
+theorem C05_s1_unique (I : RangeInst F M) (π : ProofM F M) (s1' : F) (y z : F) (es : List F) (e : F)
+    (h : Model.specResidual I π y z es e = 0) (h' : Model.specResidual I { π with s1 := s1' } y z es e = 0) :
+    π.s1 = s1' ∨ e • foldH es I.H 0 + (π.r1 * y) • I.hb = 0 := by
+  rw [specResidual_bridge] at h h'; exact response_s1_unique I π s1' y z es e h h'
+
+theorem C05_d1k_unique (I : RangeInst F M) (π : ProofM F M) (k : ℕ) (hk : k < I.t) (x : F) (y z : F) (es : List F) (e : F)
+    (h : Model.specResidual I π y z es e = 0)
+    (h' : Model.specResidual I { π with d1 := fun i => if i = k then x else π.d1 i } y z es e = 0) :
+    π.d1 k = x ∨ I.Gb k = 0 := by
+  rw [specResidual_bridge] at h h'; exact response_d1k_unique I π k hk x y z es e h h'
 
 end Bpp
